@@ -296,7 +296,13 @@ pub fn gen_request(g: &mut G, max_body: usize) -> ReqPlan {
     let params = (0..g.below(4)).map(|_| (word(g), word(g))).collect();
     let mut headers = Vec::new();
     for _ in 0..g.below(5) {
-        let name = match g.below(7) {
+        let name = match g.below(8) {
+            // framing and routing fields belong to the library: whatever the caller (or a header map copied
+            // from elsewhere) says, the request on the wire is framed by its body and addressed by its URL
+            7 => {
+                g.probe("caller-sets-a-framing-or-routing-header");
+                (*g.pick(&["Content-Length", "Transfer-Encoding", "Connection", "Host", "content-length", "transfer-encoding"])).to_string()
+            }
             // a field the library has its own opinion about: the caller's value stays, except that a
             // multipart body announces its own type (and boundary)
             6 => {
@@ -318,6 +324,16 @@ pub fn gen_request(g: &mut G, max_body: usize) -> ReqPlan {
             4 => vec![0xe9, b'-', 0xff, 0x80],
             _ => b"\"quoted\" (comment) <x@y>".to_vec(),
         };
+        if ["content-length", "transfer-encoding", "connection", "host"].contains(&name.to_ascii_lowercase().as_str()) {
+            let v: &str = match name.to_ascii_lowercase().as_str() {
+                "content-length" => *g.pick(&["0", "5", "99999"]),
+                "transfer-encoding" => *g.pick(&["chunked", "gzip", "identity"]),
+                "connection" => *g.pick(&["keep-alive", "upgrade"]),
+                _ => *g.pick(&["evil.test", "evil.test:81"]),
+            };
+            headers.push((name, v.as_bytes().to_vec(), g.chance(1, 4)));
+            continue;
+        }
         if name == "Content-Type" {
             let v = (*g.pick(&["application/json", "text/x-custom; charset=latin1", "application/x-whatever", "multipart/form-data; boundary=callers-own"])).as_bytes().to_vec();
             headers.push((name, v, false));
@@ -583,6 +599,8 @@ pub fn check_request_ex(
         // checked by check_multipart: the form's own type and boundary replace the caller's
         model.retain(|(k, _)| k != "content-type");
     }
+    // judged by the framing / Host / Connection rules below, not as caller fields
+    model.retain(|(k, _)| !["content-length", "transfer-encoding", "connection", "host"].contains(&k.as_str()));
     let mut names: Vec<String> = model.iter().map(|(k, _)| k.clone()).collect();
     names.sort();
     names.dedup();
